@@ -43,6 +43,8 @@ class Graph:
         self.unresolved_inline = []
         self.method_index = None
         self.event_call_rx = [re.compile(e["call"]) for e in spec.get("events", {}).values() if "call" in e]
+        # events that stay opaque (not inlined); `even_inlined` events may be inlined AND fire
+        self.opaque_event_rx = [re.compile(e["call"]) for e in spec.get("events", {}).values() if "call" in e and not e.get("even_inlined")]
 
     # ---------------------------------------------------------------- name resolution
     def build_index(self):
@@ -148,7 +150,7 @@ class Graph:
             return tgt
         # automatic: inline crate functions through which an event of this obligation is reachable,
         # unless the call itself is one of the events (then it stays an opaque event)
-        if any(r.search(callee) for r in self.event_call_rx):
+        if any(r.search(callee) for r in self.opaque_event_rx):
             return None
         if self.reaches_event(tgt):
             return tgt
